@@ -181,6 +181,12 @@ pub enum ProbeEvent {
     SetBlocked,
     Alloc,
     Chan(u16),
+    /// the HEARTBEAT token after the thread was away for `away_ms`; the timers are started with
+    /// `interval_ms` first if they are not running yet
+    Heartbeat {
+        interval_ms: u64,
+        away_ms: u64,
+    },
 }
 
 pub struct CoreProbe {
@@ -241,6 +247,18 @@ impl CoreProbe {
             ProbeEvent::SetBlocked => Event::new(Ready::readable(), SET_BLOCKED_TX),
             ProbeEvent::Alloc => Event::new(Ready::readable(), ALLOC_CHANNEL),
             ProbeEvent::Chan(n) => Event::new(Ready::readable(), Token(n as usize)),
+            ProbeEvent::Heartbeat {
+                interval_ms,
+                away_ms,
+            } => {
+                if io.inner.heartbeats.verif_intervals().is_none() {
+                    io.inner
+                        .heartbeats
+                        .start(std::time::Duration::from_millis(interval_ms));
+                }
+                std::thread::sleep(std::time::Duration::from_millis(away_ms));
+                Event::new(Ready::readable(), HEARTBEAT)
+            }
         };
         let r = io.handle_steady_event(&mut stream, state, event);
         (r, stream.written)
